@@ -102,7 +102,6 @@ func (api *API) mapDecodeBasedOnType(ctx context.Context, mapVal any, value refl
 			// the byte array was written as a bare hex string, with one as an object holding the hex string.
 			innerTS, _ := api.typeSettingsRegistry.GetByType(valueType)
 			if sliceValueType.AssignableTo(bytesType) || hasByteObjectForm(mapVal, sliceValueType, innerTS) {
-
 				var fieldValStr string
 				if innerTS.ObjectType() == nil {
 					str, ok := mapVal.(string)
@@ -119,6 +118,9 @@ func (api *API) mapDecodeBasedOnType(ctx context.Context, mapVal any, value refl
 					m, ok := mapVal.(map[string]any)
 					if !ok {
 						return ierrors.Errorf("non map[string]any value in map when decoding a byte array, got %T instead", mapVal)
+					}
+					if err := checkMapObjectCode(m, innerTS.ObjectType()); err != nil {
+						return ierrors.Wrap(err, "failed to read byte array from map")
 					}
 					str, ok := m[fieldKey].(string)
 					if !ok {
